@@ -607,6 +607,43 @@ func Units(tier string) []Unit {
 		us = append(us, seqUnit(f, depth))
 	}
 	us = append(us, MetaUnits(thorough)...)
+	us = append(us, Unit{Name: "gradient-stops", Each: func(yield func([]byte) bool) {
+		// a gradient with k valid stops for every k the 6-bit field can hold, x shape x spread
+		for k := 0; k < 64; k++ {
+			for v := 0; v < 8; v++ {
+				b := append(append([]byte{}, Magic...), 0x00, 0x14, 0x54)
+				for i := 0; i < k; i++ {
+					b = append(b, 0x87, byte(i%125), 0xbf)
+					b = AppendNum(b, 2, uint32(i*200))
+				}
+				b = append(b, 0x00, 0x98, byte(k), byte(20|(v&3)<<6), byte(20|0x80|(v>>2)<<6), 0x00)
+				b = append(b, 0xc0, 0x70, 0x70, 0x01, 0x90, 0x70, 0x80, 0x90, 0xe1)
+				if !yield(b) {
+					return
+				}
+			}
+		}
+	}})
+	us = append(us, Unit{Name: "long-inputs", Each: func(yield func([]byte) bool) {
+		// valid streams around and well beyond 64 KiB, and the same with a reserved opcode at the end
+		pat := []byte{0x01, 0x41, 0xc0, 0x80, 0x80, 0x00, 0x82, 0x84, 0x41, 0x70, 0x90, 0xe1, 0x98, 0x30, 0x20, 0x07, 0x80}
+		for _, n := range []int{65535, 65536, 65537, 70001, 131073} {
+			b := append(append([]byte{}, Magic...), 0x00)
+			for len(b)+len(pat) <= n {
+				b = append(b, pat...)
+			}
+			for len(b) < n {
+				b = append(b, 0x00)
+			}
+			if !yield(b) {
+				return
+			}
+			b[len(b)-1] = 0xc8 // reserved styling opcode
+			if !yield(b) {
+				return
+			}
+		}
+	}})
 	files := Corpus()
 	for _, f := range files {
 		if thorough || strings.HasPrefix(f.Name, "testdata/") || len(f.Data) <= 64 {
